@@ -369,7 +369,7 @@ func c06(seed int64, thorough bool) {
 	}
 	nrand := 1800
 	if thorough {
-		nrand = 120000
+		nrand = 60000
 	}
 	for i := 0; i < nrand; i++ {
 		v := rng.Uint32()
@@ -440,7 +440,7 @@ func c06(seed int64, thorough bool) {
 	}
 	nblk := 100000
 	if thorough {
-		nblk = 3000000
+		nblk = 2000000
 	}
 	for i := 0; i < nblk; i++ {
 		var b [16]byte
